@@ -50,7 +50,7 @@ def main():
     sd = os.path.join(VERIF, "seeded")
     for name in sorted(os.listdir(sd)):
         meta = json.load(open(os.path.join(sd, name, "meta.json")))
-        jobs.append((name, os.path.join(sd, name, "patch.diff"), [meta["property"]]))
+        jobs.append((name, os.path.join(sd, name, "patch.diff"), [meta["property"]], "documented_miss" if meta.get("expect") else "flagged"))
     idx = json.load(open(os.path.join(VERIF, "mutants", "index.json")))
     for fname, info in sorted(idx.items()):
         jobs.append((fname.replace(".patch", ""), os.path.join(VERIF, "mutants", fname), [info["property"]] + info.get("also", []),
@@ -70,6 +70,9 @@ def main():
         caught = res[props[0]]["exit"] == 1
         if expect == "not_flagged":
             caught = res[props[0]]["exit"] == 0
+        if expect == "documented_miss":
+            print(f"{name}: {props[0]} exit={res[props[0]]['exit']} (documented: outside what the property states, see meta.json)", flush=True)
+            continue
         note = "" if caught else ("   <-- MISSED" if expect == "flagged" else "   <-- FALSE ALARM on a harmless change")
         print(f"{name}: " + "; ".join(f"{p} exit={v['exit']} {','.join(v['clauses'])}" for p, v in res.items())
               + (f" [tests: {tests}]" if tests else "") + note, flush=True)
